@@ -680,7 +680,7 @@ def register_slice(ix):
     ix.add_class(ClassSpec("Slice0", IT, fields={}, alias_of="Slice"))
     MOD = ["self._islice", "self._indices", "self._next_index", "self._index", "self._start", "self._stop", "self._step",
            "self.run", "self._args"]
-    cases = []
+    cases, text_cases = [], []
     for ty, start, stop, step in slice_typings():
         ints = [c for c in (start, stop, step) if c is not None]
         nonneg = " and ".join("%s >= 0" % c for c in ints) or "True"
@@ -694,9 +694,18 @@ def register_slice(ix):
         if stop:
             ens.append("%s implies arith_stop(self._indices) == %s" % (nonneg, stop))
         # ---- (b) negative indices
+        # (how `run` is bound for negative indices is stated for step 1 only, and in both spellings a maintainer may
+        # choose - a lambda delegating to _run_negative_islice or the bound method itself; the text of the closure used for
+        # other steps is an implementation detail the property does not speak about: see `Slice.__init__#closure-text`)
         ens += ["not (%s) implies self._start is %s and self._stop is %s and self._step == %s" % (nonneg, start, stop, k),
-                "not (%s) and %s == 1 implies is_closure(self.run, '%s', self=self)" % (nonneg, k, NEG_LAMBDA_1),
-                "not (%s) and %s != 1 implies is_closure(self.run, '%s', self=self, step=%s)" % (nonneg, k, NEG_LAMBDA_K, k)]
+                "not (%s) and %s == 1 implies (is_closure(self.run, '%s', self=self) or "
+                "self.run is class_method(self, '_run_negative_islice'))" % (nonneg, k, NEG_LAMBDA_1)]
+        text_cases.append(Contract(
+            IT, "Slice.__init__", name="Slice.__init__#closure-text[%s]" % ty,
+            params={"self": "Self[Slice0]", "args": ty}, vararg="args",
+            raises={"LenaValueError": ("%s <= 0" % step) if step else "False"},
+            ensures=["not (%s) and %s != 1 implies is_closure(self.run, '%s', self=self, step=%s)" % (nonneg, k, NEG_LAMBDA_K, k)],
+            modifies=MOD))
         cases.append(Contract(
             IT, "Slice.__init__", name="Slice.__init__[%s]" % ty,
             params={"self": "Self[Slice0]", "args": ty}, vararg="args",
@@ -705,6 +714,9 @@ def register_slice(ix):
     ix.add(Contract(IT, "Slice.__init__", props=["C17"], cases=cases,
                     notes="every int / None typing of 1..3 arguments; integers are unbounded (CPython also rejects indices "
                           "above sys.maxsize with ValueError)"))
+    # not part of any check (a behaviour-preserving refactoring - bound methods instead of lambdas - violated it: the clause
+    # demanded more than C17 states); kept as documentation of the current text
+    ix.add(Contract(IT, "Slice.__init__", qualkey="Slice.__init__#closure-text", props=[], cases=text_cases))
 
     # ---- run, all arguments None or >= 0: `Yield values from flow from start to stop with step` == itertools.islice
     if not hasattr(ix, "closures"):
